@@ -99,8 +99,93 @@ theorem arena_export_stack_depth {a : Arena V} {st : St V} (h : RepSt a st) (hw 
     rw [this]
     simp [Arena.exportLoopD]
 
+/-! ### the capacity reserved for the stack
+
+`height()` walks the left spine counting black nodes and returns twice that count; `create_ordered_list` reserves a
+stack of that capacity (`Vec::with_capacity(height)`). -/
+
+/-- black nodes on the left spine -/
+def T.leftBlacks {ε : Type} : T ε → Nat
+  | .leaf => 0
+  | .node c l _ _ _ => bh c + T.leftBlacks l
+
+theorem Bal.leftBlacks {ε : Type} {t : T ε} {n : Nat} (h : Bal t n) : t.leftBlacks = n := by
+  induction h with
+  | leaf => rfl
+  | red _ _ _ _ ihl _ => simp [T.leftBlacks, ihl]
+  | black _ _ ihl _ => simp [T.leftBlacks, ihl]; omega
+
+theorem heightLoop_rep {a : Arena V} (hsize : a.nodes.size ≤ EMPTY) : ∀ (l : T (Ent V)) (i p : Nat) (c : Color) (s : Nat)
+    (e : Ent V) (r : T (Ent V)) (n : ANode V) (h fuel : Nat), Rep a i p (.node c l s e r) → a.node i = some n →
+    l.height < fuel → Arena.heightLoop fuel a n h = some (h + l.leftBlacks) := by
+  intro l
+  induction l with
+  | leaf =>
+    intro i p c s e r n h fuel hr hn hf
+    obtain ⟨rfl, n0, hn0, _, _, _, hl, _⟩ := hr
+    rw [hn0] at hn; cases hn
+    have hle : n.left = EMPTY := hl
+    cases fuel with
+    | zero => omega
+    | succ fuel => simp [Arena.heightLoop, hle, T.leftBlacks]
+  | node cl ll sl el rl ihl _ =>
+    intro i p c s e r n h fuel hr hn hf
+    obtain ⟨rfl, n0, hn0, _, _, _, hl, _⟩ := hr
+    rw [hn0] at hn; cases hn
+    have hl' := hl
+    obtain ⟨hsl, nl, hnl, _, hred, _⟩ := hl
+    have hnl' : a.node n.left = some nl := by rw [hsl]; exact hnl
+    have hlE : (n.left == EMPTY) = false := by
+      have := node_lt hnl'; simp; unfold EMPTY at hsize ⊢; omega
+    cases fuel with
+    | zero => omega
+    | succ fuel =>
+      simp only [T.height] at hf
+      simp only [Arena.heightLoop, hlE, Bool.false_eq_true, if_false, hnl', Option.bind_some]
+      rw [ihl n.left i cl sl el rl nl _ fuel hl' hnl' (by omega)]
+      cases cl <;> simp [hred, isRedC, T.leftBlacks] <;> omega
+
+/-- **the stack never outgrows the capacity reserved for it**: on every arena representing a red-black tree
+`height()` completes, and the explicit stack of `create_ordered_list` — `Vec::with_capacity(height)` — never holds
+more frames than that capacity: the export performs no reallocation of its stack, whatever the tree -/
+theorem arena_export_stack_capacity {a : Arena V} {st : St V} (h : RepSt a st) (hw : WF st) (hsize : a.nodes.size ≤ EMPTY) :
+    ∃ cap depth, a.heightCap = some cap ∧ a.exportStackD = some (valsOf st.tree, depth) ∧ depth ≤ cap := by
+  obtain ⟨n, hbal⟩ := hw.bal
+  have hle := hbal.height_le
+  have hlt := h.height_lt hw.slots
+  have hr := h.tree
+  cases ht : st.tree with
+  | leaf =>
+    rw [ht] at hr
+    have : a.root = EMPTY := hr
+    exact ⟨0, 0, by simp [Arena.heightCap, this], by simp [Arena.exportStackD, this, valsOf_leaf], by omega⟩
+  | node c l s e r =>
+    rw [ht] at hr hle hlt hbal
+    obtain ⟨k, hk, hloop⟩ := exportLoopD_subtree hsize (.node c l s e r) a.root EMPTY hr (by simp)
+    have hr' := hr
+    obtain ⟨hs, nn, hn, _⟩ := hr
+    have hn' : a.node a.root = some nn := by rw [hs]; exact hn
+    have hne : (a.root == EMPTY) = false := by
+      have := node_lt hn'; simp; unfold EMPTY at hsize ⊢; omega
+    have hsz : (T.node c l s e r).size ≤ a.nodes.size := by have := h.size_le hw.slots; rw [ht] at this; exact this
+    refine ⟨(1 + l.leftBlacks) * 2, (T.node c l s e r).height, ?_, ?_, ?_⟩
+    · simp only [Arena.heightCap, hne, Bool.false_eq_true, if_false, hn', Option.bind_some]
+      rw [heightLoop_rep hsize l a.root EMPTY c s e r nn 1 _ hr' hn' (by simp only [T.height] at hlt; omega)]
+      rfl
+    · have hfuel : 3 * a.nodes.size + 2 = (3 * a.nodes.size + 2 - k) + k := by omega
+      simp only [Arena.exportStackD, hne, Bool.false_eq_true, if_false, Arena.stackNode, hn', Option.map_some, Option.bind_some]
+      rw [hfuel, hloop nn hn' _ [] [] 0]
+      have : 3 * a.nodes.size + 2 - k = (3 * a.nodes.size + 1 - k) + 1 := by omega
+      rw [this]
+      simp [Arena.exportLoopD]
+    · have hlb := hbal.leftBlacks
+      simp only [T.leftBlacks] at hlb
+      cases c <;> simp [bh, T.isBlack_node] at hlb hle <;> omega
+
 /-! non-vacuity: seven keys inserted in ascending order by the pointer code: the walk needs a stack of 4 frames -/
 example : ((([0, 1, 2, 3, 4, 5, 6] : List Nat).foldlM (fun (a : Arena Nat) (k : Nat) => a.kInsert ⟨(k : Int), 9, 10 * k⟩ 0) (Arena.new 0 ⟨0, 0, 0⟩)).bind
     fun a => a.exportStackD) = some ([0, 10, 20, 30, 40, 50, 60], 4) := by decide
+example : ((([0, 1, 2, 3, 4, 5, 6] : List Nat).foldlM (fun (a : Arena Nat) (k : Nat) => a.kInsert ⟨(k : Int), 9, 10 * k⟩ 0) (Arena.new 0 ⟨0, 0, 0⟩)).bind
+    fun a => a.heightCap) = some 4 := by decide
 
 end ITree
